@@ -34,6 +34,10 @@ def run(ctx):
     write_cfg(d / "Gen2_run.cfg", "GSpec", dict(base, Confs="<- ConfsTight", MaxNest=2, MaxEvents=4 if q else 5),
               invariants=["Emit", "Inv"])
     ctx.tlc(d, "CacheGen", "Gen2_run.cfg", label="cache-gen-tight", timeout=1800)
+    # nil and empty values (Set(k, nil)): live entries of length 0.
+    write_cfg(d / "Gen3_run.cfg", "GSpec", dict(base, Vals="<- MCValsNil", Confs="<- ConfsConc", MaxNest=1, MaxEvents=3 if q else 4),
+              invariants=["Emit", "Inv"])
+    ctx.tlc(d, "CacheGen", "Gen3_run.cfg", label="cache-gen-nilvalues", timeout=1800)
     ctx.extra["behaviours_enumerated_exhaustively"] = count_lines(d / "cache_vectors.ndjson")
     # 3. simulated long behaviours (appended to the same vector file).
     write_cfg(d / "Sim_run.cfg", "GSpec", dict(base, Confs="<- AllConfs", MaxNest=2, MaxEvents=30),
